@@ -22,17 +22,21 @@ type AliasJob struct {
 	Dir    string   `json:"dir"`
 	Pairs  [][2]int `json:"pairs"`  // probe ids observed with the same address and type
 	Births [][2]int `json:"births"` // (probe id, birth probe id): the object seen at probe was allocated at the birth probe's site
+	Inds   [][2]int `json:"inds"`   // (indirect probe id, probe id): *pp held the object that the direct probe observed
 	Out    string   `json:"out"`
 }
 
 // AliasResult is the worker's answer.
 type AliasResult struct {
-	NoQuery      []int          `json:"no_query"`
-	NotMayAlias  [][2]int       `json:"not_may_alias"`
-	MissingLabel [][2]int       `json:"missing_label"`
-	Checked      int            `json:"checked"`
-	Desc         map[int]string `json:"desc"`
-	Err          string         `json:"err,omitempty"`
+	NoQuery       []int          `json:"no_query"`
+	NotMayAlias   [][2]int       `json:"not_may_alias"`
+	MissingLabel  [][2]int       `json:"missing_label"`
+	IndNotAlias   [][2]int       `json:"ind_not_alias"`
+	InnerNotAlias [][2]int       `json:"inner_not_alias"`
+	InnerNoQuery  int            `json:"inner_no_query"`
+	Checked       int            `json:"checked"`
+	Desc          map[int]string `json:"desc"`
+	Err           string         `json:"err,omitempty"`
 }
 
 func init() {
@@ -70,7 +74,7 @@ func init() {
 						continue
 					}
 					cal := c.Call.StaticCallee()
-					if cal == nil || cal.Name() != "Probe" || len(c.Call.Args) != 2 {
+					if cal == nil || (cal.Name() != "Probe" && cal.Name() != "ProbeInd") || len(c.Call.Args) != 2 {
 						continue
 					}
 					id := constArg(&c.Call)
@@ -135,6 +139,55 @@ func init() {
 				res.MissingLabel = append(res.MissingLabel, bp)
 			}
 		}
+		iq := state.PointerAnalysis.IndirectQueries
+		for _, ip := range job.Inds {
+			pp, v := probed[ip[0]], probed[ip[1]]
+			if pp == nil || v == nil {
+				continue
+			}
+			pi, ok1 := iq[pp]
+			pv, ok2 := q[v]
+			if !ok1 {
+				noq[ip[0]] = true
+			}
+			if !ok1 || !ok2 {
+				continue
+			}
+			res.Checked++
+			if !pi.MayAlias(pv) {
+				res.IndNotAlias = append(res.IndNotAlias, ip)
+			}
+			// The probed value is the result of a call to a short, call-free accessor that the pointer analysis
+			// analyses once per static call site. The address computed inside the accessor is, at run time, the
+			// very value the call returned, so the same obligations hold for the value inside the accessor, whose
+			// canonical query nodes must merge every calling context.
+			if call, ok := pp.(*ssa.Call); ok {
+				if cal := call.Call.StaticCallee(); cal != nil && len(cal.Blocks) == 1 {
+					if ret, ok := cal.Blocks[0].Instrs[len(cal.Blocks[0].Instrs)-1].(*ssa.Return); ok && len(ret.Results) == 1 {
+						inner := ret.Results[0]
+						ii, ok3 := iq[inner]
+						di, ok4 := q[inner]
+						if ok3 {
+							res.Checked++
+							if !ii.MayAlias(pv) {
+								res.InnerNotAlias = append(res.InnerNotAlias, ip)
+							}
+						}
+						if ok4 {
+							if pq, ok5 := q[pp]; ok5 {
+								res.Checked++
+								if !di.MayAlias(pq) {
+									res.InnerNotAlias = append(res.InnerNotAlias, [2]int{ip[0], ip[0]})
+								}
+							}
+						}
+						if !ok3 || !ok4 {
+							res.InnerNoQuery++
+						}
+					}
+				}
+			}
+		}
 		for id := range noq {
 			res.NoQuery = append(res.NoQuery, id)
 		}
@@ -154,10 +207,10 @@ func C11(tier string) {
 		nProgs = 1
 	}
 	var mu sync.Mutex
-	pairsTotal, birthsTotal, checked := 0, 0, 0
+	pairsTotal, birthsTotal, checked, indsTotal := 0, 0, 0, 0
 	core.Parallel(nProgs, 6, func(pi int) {
 		r := core.NewRNG(run.SeedV, fmt.Sprintf("c11-%s-%d", tier, pi))
-		files, births := gen.RenderHeapProgram(r, nFuncs, nSteps)
+		files, births, inds := gen.RenderHeapProgram2(r, nFuncs, nSteps)
 		dir := filepath.Join(run.Scratch, fmt.Sprintf("heap%02d", pi))
 		if err := gen.WriteProgram(dir, files); err != nil {
 			run.Inconclusive(err.Error())
@@ -170,6 +223,7 @@ func C11(tier string) {
 		}
 		pairSet := map[[2]int]bool{}
 		birthSet := map[[2]int]bool{}
+		indSet := map[[2]int]bool{}
 		for in := 0; in < 64; in++ {
 			evs, err := gen.RunNative(bin, fmt.Sprintf("%06b", in), "", filepath.Join(dir, "events.log"), "GOGC=off")
 			if err != nil {
@@ -183,6 +237,14 @@ func C11(tier string) {
 				}
 				k := ev.Addr + "|" + ev.Type
 				byAddr[k] = append(byAddr[k], ev.ID)
+			}
+			for _, ev := range evs {
+				if ev.Kind != "Q" || ev.Addr == "0" || ev.Addr == "" || !inds[ev.ID] {
+					continue
+				}
+				for _, d := range byAddr[ev.Addr+"|"+ev.Type] {
+					indSet[[2]int{ev.ID, d}] = true
+				}
 			}
 			for _, ids := range byAddr {
 				for i := 0; i < len(ids); i++ {
@@ -213,6 +275,9 @@ func C11(tier string) {
 		for p := range birthSet {
 			job.Births = append(job.Births, p)
 		}
+		for p := range indSet {
+			job.Inds = append(job.Inds, p)
+		}
 		sort.Slice(job.Pairs, func(i, j int) bool {
 			return job.Pairs[i][0]*100000+job.Pairs[i][1] < job.Pairs[j][0]*100000+job.Pairs[j][1]
 		})
@@ -232,6 +297,7 @@ func C11(tier string) {
 		mu.Lock()
 		pairsTotal += len(job.Pairs)
 		birthsTotal += len(job.Births)
+		indsTotal += len(job.Inds)
 		checked += res.Checked
 		mu.Unlock()
 		run.Eval(len(job.Pairs) + len(job.Births))
@@ -244,6 +310,15 @@ func C11(tier string) {
 				continue
 			}
 			run.Violation(fmt.Sprintf("%s:%d:%d-%d", sig, pi, p[0], p[1]), fmt.Sprintf("probes %d [%s] and %d [%s] observed the same object in one execution, but MayAlias of their points-to sets is false", p[0], res.Desc[p[0]], p[1], res.Desc[p[1]]), withRT(files))
+		}
+		for _, p := range res.IndNotAlias {
+			run.Violation(fmt.Sprintf("indirect-not-may-alias:%d:%d-%d", pi, p[0], p[1]), fmt.Sprintf("indirect probe %d [%s] held, at run time, the object that probe %d [%s] observed, but the indirect points-to set of the former does not intersect the points-to set of the latter", p[0], res.Desc[p[0]], p[1], res.Desc[p[1]]), withRT(files))
+		}
+		for _, p := range res.InnerNotAlias {
+			run.Violation(fmt.Sprintf("accessor-value-not-may-alias:%d:%d-%d", pi, p[0], p[1]), fmt.Sprintf("the value returned inside the accessor called for indirect probe %d [%s] was, at run time, the probed pointer, which held the object that probe %d [%s] observed; the accessor value's canonical points-to sets (merged over calling contexts) do not intersect the observed one", p[0], res.Desc[p[0]], p[1], res.Desc[p[1]]), withRT(files))
+		}
+		if res.InnerNoQuery > 0 {
+			run.Violation(fmt.Sprintf("accessor-value-no-query:%d", pi), "the pointer returned inside the accessor has no (indirect) query although it is an operand of pointer-to-pointer type in a user function", withRT(files))
 		}
 		for _, p := range res.MissingLabel {
 			run.Violation(fmt.Sprintf("missing-alloc-label:%d:%d-%d", pi, p[0], p[1]), fmt.Sprintf("probe %d [%s] observed the object allocated at probe %d [%s], but that allocation site is not in its points-to set", p[0], res.Desc[p[0]], p[1], res.Desc[p[1]]), withRT(files))
@@ -262,6 +337,7 @@ func C11(tier string) {
 	run.Cov["programs"] = nProgs
 	run.Cov["observed_alias_pairs"] = pairsTotal
 	run.Cov["observed_(value,allocation_site)_pairs"] = birthsTotal
+	run.Cov["observed_(pointer-to-pointer,pointee)_pairs"] = indsTotal
 	run.Cov["obligations_checked_against_queries"] = checked
 	run.Assumptions = append(run.Assumptions, "GC is disabled in the native runs, so an address identifies one object for a whole execution; only pairs of the same dynamic (= static) type are compared",
 		"the analyzer state is built exactly as the tools build it (NewInitializedAnalyzerState)")
